@@ -145,7 +145,7 @@ let handle (x : sexp) : (string * string) list =
      | _ -> add "specfail" ("total: lexer " ^ i_toks));
     (* ---------------- limits *)
     let i_lim = print_sexp lim in
-    let m_lim = match tokenize_limits true lz fz b with
+    let m_lim = match tokenize_limits true true lz fz b with
       | None -> "(lim outoffuel)"
       | Some ((v, d), fl) -> Printf.sprintf "(lim %s %s %s)" (show_verdict v) (decimal_of_z d) (decimal_of_z fl) in
     if i_lim <> m_lim then add "mismatch" (Printf.sprintf "corr:C05/limits impl=%s model=%s" i_lim m_lim);
@@ -184,7 +184,8 @@ let handle (x : sexp) : (string * string) list =
       (* limits soundness against the real depth / fields of the dumped tree *)
       let d_impl = doc_of (parse_sexp dump1) in
       if not (limits_ok_b lz fz d_impl lim_accepted) then
-        add "specfail" (Printf.sprintf "limits_sound L=%s F=%s real_depth=%s real_fields=%s impl=%s" l f
+        add "specfail" (Printf.sprintf "limits_sound L=%s F=%s depth_sum=%s depth_inlined=%s depth_per_definition=%s real_fields=%s impl=%s" l f
+                          (decimal_of_z (depth_sum d_impl)) (decimal_of_z (max_depth_inlined d_impl d_impl))
                           (decimal_of_z (doc_depth d_impl)) (decimal_of_z (doc_fields d_impl)) i_lim);
       (* round trip, compact and indented *)
       List.iter (fun rt ->
